@@ -21,7 +21,7 @@ SELECTIONS = [None, {'exclude': ['DECORATION']}, {'include': ['CORE', 'BARLINES'
 def worker(kp, job):
     seed, idx = job
     rng = random.Random(seed * 32452843 + idx)
-    g = docs.gen_doc(rng, force_clef=True, plain_acc=True, mid_signatures=(idx % 2 == 0))
+    g = docs.gen_doc(rng, force_clef=True, plain_acc=True, mid_signatures=(idx % 2 == 0), clef_in_split=0.4 if idx % 3 == 0 else 0.0)
     text = g.text
     bad = docs.bad_cells(kp, text)
     try:
